@@ -119,3 +119,82 @@ Lemma x_finished_implies s : xreach s -> s_finished (n_send s) = true ->
 Proof.
   intros R Hf. destruct (x_finished_ok s R) as (F1 & F2). destruct (F1 Hf) as [Y|Y]; [left; split; [exact Y|exact (F2 Y)]|right; exact Y].
 Qed.
+
+(* ---------- liveness after reset(): three steps complete a reset stream ---------- *)
+Lemma xreach_noreset_nreach s : xreach s -> s_reset (n_send s) = None -> nreach s.
+Proof. intros R E. destruct (xreach_cases s R) as [N|X]; [exact N|destruct (x_reset _ X E)]. Qed.
+
+Lemma nthZo_mid (pre : list Z) x t : nthZo (pre ++ x :: t) (Zlen pre) = Some x.
+Proof.
+  unfold nthZo, Zlen. assert (E : Z.of_nat (length pre) <? 0 = false) by lia. rewrite E, Nat2Z.id.
+  rewrite nth_error_app2 by lia. rewrite Nat.sub_diag. reflexivity.
+Qed.
+
+Definition reset_round (s : net) : list nop := [NEmitReset; NDeliverReset (Zlen (n_resets s)); NResetOutcome true].
+
+Lemma reset_completes s : xreach s -> s_reset (n_send s) <> None ->
+  exists s', run_sched s (reset_round s) = Some s' /\
+    s_finished (n_send s') = true /\ n_racked s' = true /\ n_rreset s' = true /\ r_finished (n_recv s') = true /\
+    n_resets s' = n_resets s ++ [s_highest (n_send s)] /\
+    sched_events s (reset_round s) = (if r_finished (n_recv s) then [] else [RReset]).
+Proof.
+  intros R Hr. unfold reset_round.
+  (* step 1 *)
+  set (s1 := mkNet (snd (get_reset_frame (n_send s))) (n_recv s) (n_written s) (n_racked s) (n_emitted s)
+                   (n_resets s ++ [s_highest (n_send s)]) (n_rreset s) (n_queue s) (n_dbytes s) (n_ends s)).
+  assert (S1 : net_step s NEmitReset = Some (OResetFrame (s_highest (n_send s)), s1)).
+  { cbn [net_step]. destruct (s_reset (n_send s)) eqn:ER; [|congruence]. cbn [is_noneb]. reflexivity. }
+  assert (R1 : xreach s1) by (eapply xreach_step; eassumption).
+  (* step 2 *)
+  assert (E2 : nthZo (n_resets s1) (Zlen (n_resets s)) = Some (s_highest (n_send s))) by (unfold s1; cbn [n_resets]; apply nthZo_mid).
+  pose proof (handle_reset_facts (n_recv s1) (s_highest (n_send s))) as HR.
+  assert (S2 : exists o2 s2, net_step s1 (NDeliverReset (Zlen (n_resets s))) = Some (o2, s2)).
+  { cbn [net_step]. rewrite E2. destruct (handle_reset (n_recv s1) (s_highest (n_send s))) as [ro r']. destruct ro; eauto. }
+  destruct S2 as (o2 & s2 & S2).
+  pose proof (x_no_spurious_final_size_error s1 _ _ _ R1 S2) as Hne.
+  assert (S2' : s2 = report (r_finished (n_recv s)) RReset s1 (snd (handle_reset (n_recv s) (s_highest (n_send s)))) (n_emitted s) true /\
+                r_finished (snd (handle_reset (n_recv s) (s_highest (n_send s)))) = true).
+  { cbn [net_step] in S2. rewrite E2 in S2. change (n_recv s1) with (n_recv s) in *. change (n_emitted s1) with (n_emitted s) in *.
+    destruct (r_final (n_recv s)) as [f0|] eqn:Ef.
+    - destruct (negb (f0 =? s_highest (n_send s))) eqn:En.
+      + rewrite HR in S2. inversion S2; subst. contradiction Hne. reflexivity.
+      + destruct HR as (H1 & _ & H3). destruct (handle_reset (n_recv s) (s_highest (n_send s))) as [ro r']. cbn [fst snd] in *. subst ro.
+        inversion S2; subst. auto.
+    - destruct HR as (H1 & _ & H3). destruct (handle_reset (n_recv s) (s_highest (n_send s))) as [ro r']. cbn [fst snd] in *. subst ro.
+      inversion S2; subst. auto. }
+  destruct S2' as (-> & Hfin).
+  set (r' := snd (handle_reset (n_recv s) (s_highest (n_send s)))) in *.
+  destruct (report_fields (r_finished (n_recv s)) RReset s1 r' (n_emitted s) true) as (F1 & F2 & _ & _).
+  destruct (report_racked (r_finished (n_recv s)) RReset s1 r' (n_emitted s) true) as (F5 & F6).
+  assert (F7 : n_rreset (report (r_finished (n_recv s)) RReset s1 r' (n_emitted s) true) = true)
+    by (unfold report; destruct (r_finished (n_recv s)); reflexivity).
+  assert (F8 : n_queue (report (r_finished (n_recv s)) RReset s1 r' (n_emitted s) true) =
+               n_queue s ++ (if r_finished (n_recv s) then [] else [RReset]))
+    by (unfold report; destruct (r_finished (n_recv s)); cbn; rewrite ?app_nil_r; reflexivity).
+  remember (report (r_finished (n_recv s)) RReset s1 r' (n_emitted s) true) as s2 eqn:Es2.
+  assert (F9 : n_resets s1 = n_resets s ++ [s_highest (n_send s)]) by reflexivity.
+  (* step 3 *)
+  assert (S3 : exists s3, net_step s2 (NResetOutcome true) = Some (ONone, s3) /\ s_finished (n_send s3) = true /\ n_racked s3 = true /\
+             n_rreset s3 = true /\ n_recv s3 = r' /\ n_resets s3 = n_resets s ++ [s_highest (n_send s)] /\ n_queue s3 = n_queue s2).
+  { cbn [net_step]. rewrite F6, F9. destruct (n_resets s ++ [s_highest (n_send s)]) eqn:En.
+    - apply app_eq_nil in En. destruct En as (_ & En). discriminate.
+    - unfold on_reset_delivery. eexists. split; [reflexivity|].
+      cbn [n_send n_racked n_rreset n_recv n_resets n_queue s_finished]. rewrite ?F2, ?F7. auto 10. }
+  destruct S3 as (s3 & S3 & G1 & G2 & G3 & G4 & G5 & G6).
+  exists s3. split; [cbn [run_sched]; rewrite S1, S2, S3; reflexivity|].
+  split; [exact G1|]. split; [exact G2|]. split; [exact G3|]. split; [rewrite G4; exact Hfin|]. split; [exact G5|].
+  cbn [sched_events]. rewrite S1, S2, S3. unfold queued. rewrite G6, F8.
+  change (n_queue s1) with (n_queue s).
+  rewrite (skipn_all (n_queue s)), (skipn_app_exact (n_queue s)), skipn_all. cbn [app]. rewrite !app_nil_r. reflexivity.
+Qed.
+
+Example reset_round_example :
+  match run_sched net_init [NWrite [1; 2; 3; 4] false; NEmit 2 None; NDeliver 0; NReset 7; NEmitReset; NResetOutcome false] with
+  | Some s => reset_round s = [NEmitReset; NDeliverReset 1; NResetOutcome true] /\
+              match run_sched s (reset_round s) with
+              | Some s' => s_finished (n_send s') = true /\ n_queue s' = [RData [1; 2] false; RReset] /\ n_resets s' = [2; 2]
+              | None => False
+              end
+  | None => False
+  end.
+Proof. vm_compute. repeat split; reflexivity. Qed.
